@@ -2663,11 +2663,22 @@ func (m *Machine) detectQueueDuplicates(mutationType MutationType,
 	if m.disposing.Load() {
 		return false
 	}
-	// check if this mutation is already scheduled
-	found, _, _ := m.IsQueued(mutationType, states, true, true, 0, isCheck,
-		PositionAny)
+	// check if this mutation is already scheduled, with no counter mutation
+	// (nor any other one, which can reach these states via relations)
+	// scheduled after it
+	m.queueMx.RLock()
+	defer m.queueMx.RUnlock()
+	idxs := m.Index(states)
+	dup := false
+	for _, mut := range m.queue {
+		if mut.IsCheck != isCheck {
+			continue
+		}
+		dup = mut.Type == mutationType && len(mut.Args) == 0 &&
+			len(mut.Called) == len(idxs) && slicesEvery(mut.Called, idxs)
+	}
 
-	return found
+	return dup
 }
 
 // Transition returns the current transition, if any.
